@@ -57,20 +57,22 @@ type Event struct {
 }
 
 type Result struct {
-	Full     []int // the complete executed schedule
-	Obs      []Obs
-	Events   []Event
-	Handled  []int
-	Oks      []int
-	Errs     []int
-	Terms    int
-	Reason   int
-	Final    int
-	QLens    [3]int64
-	Fbs      []int
-	MaxOpen  int32
-	Stalled  string
-	SpawnErr bool
+	Full          []int // the complete executed schedule
+	Obs           []Obs
+	Events        []Event
+	Handled       []int
+	Oks           []int
+	Errs          []int
+	Terms         int
+	Reason        int
+	Final         int
+	QLens         [3]int64
+	Fbs           []int
+	MaxOpen       int32
+	DoubleRelease int
+	DoubleAt      string
+	Stalled       string
+	SpawnErr      bool
 }
 
 var labelCode = map[string]int{
@@ -472,6 +474,7 @@ func runCaseEnabled(node gen.Node, helperPID gen.PID, c Case) (Result, [][]int) 
 	res.Terms = pr.terms
 	res.Reason = pr.reason
 	res.MaxOpen = pr.maxOpen
+	res.DoubleRelease, res.DoubleAt = pool.report()
 	pr.mu.Unlock()
 	// what the fallback process received for this target (wait until it is idle)
 	if c.Fallback && theFallback != nil {
